@@ -166,7 +166,46 @@ classImplementsOnly(V, I2)
 classImplementsFirst(V, I1)
 classImplementsOnly(V, I3)
 
-CLASSES = (Plain, A, B, C, D, E, F, G, H, J, K, L, M, N, O, P, Q, R, S, T, U, V)
+
+
+class W(A):                      # observed while an *only* declaration is applied
+    pass
+
+
+class _PicklingObserver:
+    """A dependent of implementedBy(W): every time it is told about a change it
+    pickles the specification and checks that it comes back as the same object."""
+
+    def __init__(self):
+        self.results = []
+
+    def changed(self, originally_changed):
+        import pickle
+        spec = implementedBy(W)
+        try:
+            self.results.append(pickle.loads(pickle.dumps(spec)) is spec)
+        except Exception as e:           # noqa
+            self.results.append(repr(e))
+
+
+OBSERVER = _PicklingObserver()
+implementedBy(W).subscribe(OBSERVER)
+classImplements(W, I2)
+classImplementsOnly(W, I1)
+classImplementsFirst(W, I2)
+
+
+class X(A):                      # an *only* declaration that was refused half way
+    pass
+
+
+try:
+    classImplementsOnly(X, [I1, I2])      # a list is not accepted here
+except TypeError:
+    pass
+
+CLASSES = (Plain, A, B, C, D, E, F, G, H, J, K, L, M, N, O, P, Q, R, S, T, U, V, W, X)
+BUILTINS = (list, dict, int, tuple)       # their specifications live in a registry, not on the type
 IFACES = (I0, I1, I2, I3)
 
 INSTANCE_SHAPES = ('plain', 'dp_I2', 'dp_I1I2', 'ap_I0', 'dp_then_nlp', 'dp_I3', 'dp_empty',
